@@ -112,6 +112,18 @@ class ReadStream(Stream):
             r2 = None
         same = (r1 is not None and r2 is not None and json.dumps(r1, default=str) == json.dumps(r2, default=str)
                 and r1["fulldata_ok"] and r2["fulldata_ok"])
+        if same and p != q:
+            # the model is re-labelled AFTER it was read (the two names swapped): every accessor must follow the new labels
+            try:
+                before = (complex(mod.get_A(q, p)), complex(mod.get_T(q, p)), complex(mod.get_PH(q, p)))
+                mod.pin_mapping({Pin(p): Pin(q), Pin(q): Pin(p)})
+                after = (complex(mod.get_A(p, q)), complex(mod.get_T(p, q)), complex(mod.get_PH(p, q)))
+                after_pin = (complex(mod.get_A(Pin(p), Pin(q))), complex(mod.get_T(Pin(p), Pin(q))),
+                             complex(mod.get_PH(Pin(p), Pin(q))))
+                same = before == after == after_pin and bool(
+                    np.array_equal(mod.get_data(p, q)["Amplitude"].to_numpy()[:1], np.array([before[0]])))
+            except Exception:
+                same = False
         Sm = clist(cmat(j2m(M).reshape(n, n), cq) for M in d["S"])
         return ("{| rd_idx := %s; rd_S := %s; rd_u := %s; rd_pq := (%s, %s); rd_power := %s; rd_same := %s; "
                 "rd_out0 := %s; rd_full := %s; rd_data := %s; rd_AT0 := %s |}"
